@@ -81,6 +81,9 @@ def run_shard(desc, ctx):
     fam.append([['one_template'], ['subset', 3, 2, 1.0], ['reload'], ['subset', 2, 2, 2.0]])
     fam.append([['foreign', 'pandas_index'], ['reload'], ['meta', 'group', 41]])
     fam.append([['foreign', 'comma_tsv'], ['meta', 'quality', 42], ['reload']])
+    fam.append([['foreign', 'csv_same_stem'], ['meta', 'quality', 43], ['reload']])
+    fam.append([['meta', 'quality', 44], ['foreign', 'csv_same_stem'], ['foreign', 'tab_csv'], ['reload']])
+    fam.append([['meta', 'group', 45], ['foreign', 'open_quote_big'], ['reload'], ['meta', 'group', 46], ['reload']])
     fam.append([['clusters', 7], ['meta', 'group', 15], ['reload'], ['clusters', 8], ['meta', 'group', 16], ['clusters_back'], ['meta_back', 'group']])
     for j, ops in enumerate(fam):
         for rep in range(2):
@@ -112,7 +115,8 @@ def rand_ops(rng):
             ops.append(['meta', FIELDS[int(rng.integers(0, len(FIELDS)))], int(rng.integers(0, 1 << 30))])
         elif k <= 6:
             ops.append(['foreign', ['valid_tsv', 'valid_csv', 'empty', 'header_only', 'garbage', 'ragged', 'no_cluster_id',
-                                    'cluster_info', 'csv_same_field_late', 'csv_same_field_early', 'comma_tsv', 'pandas_index'][int(rng.integers(0, 12))]])
+                                    'cluster_info', 'csv_same_field_late', 'csv_same_field_early', 'comma_tsv', 'pandas_index',
+                                    'csv_same_stem', 'tab_csv', 'open_quote_big'][int(rng.integers(0, 15))]])
         elif k == 7:
             ops.append(['subset', int(rng.integers(1, 6)), int(rng.integers(1, 4)), [1.0, 1, 2.5][int(rng.integers(0, 3))]])
         elif k == 8:
@@ -135,6 +139,11 @@ FOREIGN = {
     'csv_same_field_early': ('a_first.csv', 'cluster_id,my note,other8\n0,CSV,5\n2,CSV,6\n', {'my note': {0: 'CSV', 2: 'CSV'}, 'other8': {0: 5, 2: 6}}),
     'comma_tsv': ('cluster_commas.tsv', 'cluster_id,cfield\n0,1\n3,x y\n', {'cfield': {0: 1, 3: 'x y'}}),       # delimiter sniffed, not the suffix
     'pandas_index': ('cluster_pandas.tsv', '\tcluster_id\tpfield\n0\t3\tA\n1\t5\tB\n', {'': {3: 0, 5: 1}, 'pfield': {3: 'A', 5: 'B'}}),    # an unnamed index column first (pandas to_csv)
+    # a foreign multi-column CSV whose name has the stem of a saved field's file (cluster_quality.csv next to cluster_quality.tsv)
+    'csv_same_stem': ('cluster_quality.csv', 'cluster_id,quality,comment7\n0,CSV,c0\n1,CSV,c1\n', {'quality': {0: 'CSV', 1: 'CSV'}, 'comment7': {0: 'c0', 1: 'c1'}}),
+    'tab_csv': ('cluster_tabs.csv', 'cluster_id\ttfield\n0\t1\n3\tx y\n', {'tfield': {0: 1, 3: 'x y'}}),       # legacy phy: tab-separated .csv
+    # a quote that is never closed in front of more than 128 KiB of rows (the csv module gives up with its own error class)
+    'open_quote_big': ('cluster_quote.tsv', 'cluster_id\tqf\n0\t"abc\n' + ''.join('%d\tvalue number %d\n' % (i, i) for i in range(1, 7000)), {}),
     'no_cluster_id': ('other.csv', 'id,thing\n0,1\n1,2\n', {}),
     'cluster_info': ('cluster_info.tsv', 'cluster_id\tgroup\tquality\n0\tINFO\t999\n1\tINFO\t999\n', {}),
 }
@@ -192,7 +201,7 @@ def _run(case, ctx, d):
     kinds = [o[0] for o in ops]
     repeated = any(kinds.count(k) >= 2 for k in ('clusters', 'subset')) or \
         any(sum(1 for o in ops if o[0] == 'meta' and o[1] == f) >= 2 for f in FIELDS)
-    malformed = any(o[0] == 'foreign' and o[1] in ('empty', 'garbage', 'ragged', 'header_only') for o in ops)
+    malformed = any(o[0] == 'foreign' and o[1] in ('empty', 'garbage', 'ragged', 'header_only', 'open_quote_big') for o in ops)
     desc = {'seed': case['seed'], 'opts': opts, 'ops': ops}
     ctx.count(1, key=hkey(tuple(case['seed']), repr(ops)), nontrivial=repeated or malformed,
               cell=('enum' if case.get('enum') else 'random', opts['names'], 'len%d' % min(len(ops), 6)))
